@@ -24,28 +24,6 @@ def parseColDefs (s : String) : List W.ColDef :=
     | [t, md, nl] => ⟨n t, n md, nl == "1"⟩
     | _ => default
 
-/-- `pad=1`: the unused high bits of the last byte of every bitmap are SET, as a real master leaves them
-    (`bitmap_set_all` for the column bitmaps, `null_bits = (1 << 8) - 1` in pack_row); the Spec writers of
-    GV/Spec/Events.lean clear them. Readers must not look at those bits. -/
-def bmBytes (pad : Bool) (bits : List Bool) : Bytes :=
-  if pad then W.bitmapBytes (bits ++ List.replicate ((8 - bits.length % 8) % 8) true) else W.bitmapBytes bits
-
-def imageBytesP (pad : Bool) (cols : List W.ColDef) (vals : List (Option W.CellVal)) : Bytes :=
-  bmBytes pad (vals.map (·.isNone)) ++
-    (List.zip cols vals).flatMap fun (c, v) => match v with | some x => W.cell c.typ c.md x | none => []
-
-def rowsBodyP (pad : Bool) (k : W.RowKind) (v2 : Bool) (idw id flags : Nat) (extra : Bytes) (cols : List W.ColDef)
-    (presentBefore presentAfter : List Bool) (rows : List (List (Option W.CellVal) × List (Option W.CellVal))) : Bytes :=
-  let hasBefore := k != .write
-  let hasAfter := k != .delete
-  Bytes.ofLE idw id ++ Bytes.ofLE 2 flags ++ (if v2 then Bytes.ofLE 2 (2 + extra.length) ++ extra else [])
-    ++ W.lenenc cols.length
-    ++ (if hasBefore then bmBytes pad presentBefore else [])
-    ++ (if hasAfter then bmBytes pad presentAfter else [])
-    ++ rows.flatMap fun (b, a) =>
-        (if hasBefore then imageBytesP pad (W.selectPresent presentBefore cols) b else []) ++
-        (if hasAfter then imageBytesP pad (W.selectPresent presentAfter cols) a else [])
-
 def showRowSpec (pad : Bool) (hasB hasA : Bool) (cols : List W.ColDef) (pb pa : List Bool)
     (r : List (Option W.CellVal) × List (Option W.CellVal)) : String :=
   let img (present : List Bool) (vals : List (Option W.CellVal)) : String × String :=
